@@ -2,6 +2,7 @@
 From Coq Require Import Strings.Byte Strings.String.
 From Coq Require Import List Arith NArith Lia Bool.
 Require Import CU.model.Prim CU.model.Codec CU.model.Block CU.model.Vbs CU.model.Param CU.spec.ParamSpec.
+Require Import CU.spec.FramingSpec CU.proofs.VbsProofs.
 Import ListNotations.
 Open Scope nat_scope.
 
@@ -538,4 +539,71 @@ Proof.
   split; [apply pp_playout_get_in; [apply pp_nodup_strb_sound; exact H1|exact Hin]|].
   split; [intros E; subst; discriminate|].
   split; [apply pp_layout_okb_sound; exact H3|apply pp_fields_okb_sound; exact H4].
+Qed.
+
+(* C18_rows for every table of a configuration that passes the boolean check *)
+Lemma c18_rows_checked (ls : playouts) : layouts_okb ls = true ->
+  forall table lay c expanded irows tail rows recs e,
+  In (table, lay) ls ->
+  codec_fits c ->
+  Forall wf_irow irows -> Forall (wf_drow expanded) rows ->
+  (expanded = false -> NoDup (map i_sub irows)) ->
+  param_file c irows tail rows = Ok recs ->
+  param_read ls c table expanded recs e =
+    Ok (expected_rows lay expanded (index_of irows) table rows, pend_of_rend e).
+Proof.
+  intros Hok table lay c expanded irows tail rows recs e Hin Hc Wi Wr ND Hf.
+  destruct (pp_layouts_okb_sound ls Hok table lay Hin) as [H1 [H2 [H3 H4]]].
+  exact (c18_rows ls c table lay expanded irows tail rows recs e Hc H1 H2 H3 H4 Wi Wr ND Hf).
+Qed.
+
+Lemma c18_codecs_fit (tabs : list (str * list (option N))) :
+  forallb (fun nt => Nat.leb (length (snd nt)) 256) tabs = true ->
+  forall name tbl, In (name, tbl) tabs -> codec_fits (mkcodec tbl).
+Proof.
+  intros H name tbl Hin. rewrite forallb_forall in H. specialize (H _ Hin). apply Nat.leb_le in H. exact H.
+Qed.
+
+(* ---------- the same on the bytes of the file (framing: C03 / C05) ---------- *)
+Lemma pp_encode_length c : forall s b, encode c s = Ok b -> length b = length s.
+Proof.
+  induction s as [|ch s IH]; intros b H.
+  - cbn [encode] in H. inversion H. reflexivity.
+  - destruct (pp_encode_cons _ _ _ _ H) as [x [t [Hx [Ht Hb]]]]. subst b. cbn [length]. rewrite (IH _ Ht). reflexivity.
+Qed.
+
+Lemma pp_file_texts_nonempty irows tail rows expanded :
+  Forall wf_irow irows -> Forall (wf_drow expanded) rows ->
+  Forall (fun t => 1 <= length t) (param_file_text irows tail rows).
+Proof.
+  intros Wi Wr. unfold param_file_text. apply Forall_app. split; [|constructor].
+  - apply Forall_forall. intros t Ht. apply in_map_iff in Ht. destruct Ht as [i [E Hi]]. subst t.
+    rewrite Forall_forall in Wi. destruct (Wi i Hi) as [H1 _]. unfold irow_text. rewrite app_length. lia.
+  - unfold trailer_text. rewrite app_length. rewrite pp_lit_trailer. unfold k_trailer. cbn [length]. lia.
+  - apply Forall_forall. intros t Ht. apply in_map_iff in Ht. destruct Ht as [r [E Hr]]. subst t.
+    rewrite Forall_forall in Wr. destruct (Wr r Hr) as [_ [H2 _]]. unfold drow_text. rewrite !app_length. lia.
+Qed.
+
+Lemma c18_file_bytes (B : nat) (Bpos : 0 < B) (maxlen : N) (maxlen_ok : (maxlen < 2 ^ 32)%N) :
+  forall ls c table lay expanded blocked irows tail rows recs,
+  codec_fits c ->
+  playout_get ls table = Some lay -> lay <> [] -> layout_ok lay -> fields_ok lay ->
+  Forall wf_irow irows -> Forall (wf_drow expanded) rows ->
+  (expanded = false -> NoDup (map i_sub irows)) ->
+  Forall (fun t => (N.of_nat (length t) <= maxlen)%N) (param_file_text irows tail rows) ->
+  param_file c irows tail rows = Ok recs ->
+  (do x <- read_all B maxlen (file_of (writer_run B blocked (map WWrite recs ++ [WClose]))) blocked;
+   param_read ls c table expanded (fst x) (snd x)) =
+    Ok (expected_rows lay expanded (index_of irows) table rows, PEnd).
+Proof.
+  intros ls c table lay expanded blocked irows tail rows recs Hc Hl Hne L Fo Wi Wr ND Hmax Hf.
+  rewrite (c03_roundtrip B Bpos maxlen maxlen_ok blocked recs).
+  - cbn [bind fst snd]. apply (c18_rows ls c table lay expanded irows tail rows recs End); assumption.
+  - pose proof (pp_file_texts_nonempty irows tail rows expanded Wi Wr) as Hpos.
+    unfold param_file in Hf. apply pp_encode_all_F2 in Hf.
+    revert Hmax Hpos. revert recs Hf. generalize (param_file_text irows tail rows) as texts.
+    induction texts as [|t texts IH]; intros recs Hf Hmax Hpos; inversion Hf; subst; constructor.
+    + inversion Hmax; inversion Hpos; subst. unfold wf_rec.
+      match goal with H : encode c _ = Ok _ |- _ => rewrite (pp_encode_length c _ _ H) end. split; assumption.
+    + inversion Hmax; inversion Hpos; subst. apply IH; assumption.
 Qed.
